@@ -489,6 +489,14 @@ func c10(r *core.Run) {
 	e.w.OnStep = nil
 	e.w.Policy = nil
 	killed := W.Killed
+	for _, f := range e.w.Faults {
+		if f.Kill && f.Op == "write" {
+			r.Probe("kill_between_write_calls")
+		}
+		if f.Kill && f.Op == "rename" {
+			r.Probe("kill_right_before_rename")
+		}
+	}
 	r.Notef("WriteSpec -> %v (writer killed: %v, faults: %s)", werr, killed, e.w.FaultSummary())
 	_ = w2err
 
